@@ -7,7 +7,7 @@ only = sys.argv[1:]
 rows = []
 for d in sorted(glob.glob(os.path.join(ROOT, "seeded", "*"))):
     name = os.path.basename(d)
-    if only and name not in only:
+    if not os.path.isdir(d) or (only and name not in only):
         continue
     meta_p = os.path.join(d, "meta.json")
     meta = json.load(open(meta_p))
